@@ -8,6 +8,7 @@
                                          right-most target, which is sound when that target is a plain name or attribute)
   * `a, b = x, y`                    ->  a = x ; b = y   when no target name occurs in the right-hand side
   * `return any(T for v in it)`      ->  for v in it: if T: return True / return False        (all(): dual)
+  * `return next((E for v in it if c), D)`  ->  for v in it: if c: return E / return D
   * `return bool(E)` / `not not E`   kept (no rewrite)
   * `yield from (E for v in it if c)` / `yield from <iterable>`  ->  for v in it: [if c:] yield E
   * `n = A ; while n > B: BODY ; n -= 1`  ->  `for n in range(A, B, -1): BODY`   (counting loops; see _counting_whiles)
@@ -67,7 +68,23 @@ class _D(ast.NodeTransformer):
 
     visit_AsyncFunctionDef = visit_FunctionDef
 
+    def _next_loop(self, node):
+        """return next((E for v in it if c), D)  ->  for v in it: if c: return E / return D"""
+        v = node.value
+        if isinstance(v, ast.Call) and isinstance(v.func, ast.Name) and v.func.id == "next" and len(v.args) == 2 and not v.keywords \
+                and isinstance(v.args[0], ast.GeneratorExp) and len(v.args[0].generators) == 1 and not v.args[0].generators[0].is_async:
+            g = v.args[0].generators[0]
+            body = [ast.Return(value=v.args[0].elt)]
+            for c in reversed(g.ifs):
+                body = [ast.If(test=c, body=body, orelse=[])]
+            loop = ast.For(target=g.target, iter=g.iter, body=body, orelse=[], type_comment=None)
+            return [_loc(loop, node), _loc(ast.Return(value=v.args[1]), node)]
+        return None
+
     def visit_Return(self, node):
+        nl = self._next_loop(node)
+        if nl is not None:
+            return nl
         v = node.value
         if isinstance(v, ast.IfExp):
             a = self.visit(_loc(ast.Return(value=v.body), node))
